@@ -1,6 +1,6 @@
 Require Import FastZ.
-From Dashu Require Import Base.Prelude Float.RoundSpec Float.Contract Float.Model Int.IoSpec Float.TextIoSpec Float.TextIoModel.
+From Dashu Require Import Base.Prelude Float.RoundSpec Float.Contract Float.Model Int.IoSpec Float.TextIoSpec Float.TextIoModel Conv.ConvSpec Conv.ConvModel Float.IeeeImportModel Float.LargeExpBound.
 Extraction "model.ml" check_contract check_within_ulp check_within_ulp_incl dlen x_exp cmp_kx spec_round normalize
   parse_spec display_spec sci_spec display_body_spec sci_body_spec pad_spec layout_ok with_precision_spec float_rat base_prec_spec power_related
   from_ieee_spec ieee_decode repr_round repr_div
-  parse_asis fmt_round_asis sci_body_asis with_precision_asis convert_base_asis with_base_prec_asis.
+  parse_asis fmt_round_asis sci_body_asis with_precision_asis convert_base_asis with_base_prec_asis from_ieee_asis P32 P64 large_route_check.
